@@ -30,6 +30,9 @@ EXTRA = [
     ("near-ties between restricted choices, two restricted choices", {"p_r": 1.0, "p_near_tie": 1.0, "p_b": 1.0, "p_b_in_filter": 1.0, "T": [1, 2], "max_cells": 800}),
     ("lower-bound constraint, symmetric utility (ties with excluded grid points)",
      {"p_lower_bound": 1.0, "p_w": 1.0, "p_c": 1.0, "p_quadratic": 1.0, "p_nobind": 0.0, "T": [1, 2], "sizes": {"c": 5}, "p_z": 0.0}),
+    ("two long continuous choice grids (17 x 17 = 289 combinations; the flattened arg-max index exceeds 255)",
+     {"p_w": 1.0, "p_c": 1.0, "p_d": 1.0, "sizes": {"c": 17, "d": 17, "w": 3}, "c_stop": 4, "p_quadratic": 0.0, "T": [1, 2], "max_cells": 8000,
+      "p_r": 0.0, "p_a": 0.0, "p_b": 0.0, "p_h": 0.0, "p_z": 0.0, "p_e": 0.0, "p_nobind": 0.0, "p_lower_bound": 0.0, "p_next_in_constraint": 0.0}),
     ("near-ties between unrestricted choices", {"p_r": 0.0, "p_a": 1.0, "p_b": 1.0, "p_near_tie": 1.0, "max_cells": 800}),
 ]
 PROFILES = LATTICE + EXTRA
